@@ -431,6 +431,7 @@ class Target(DataExchangeProtocol):
 
         if timeout is None:
             timeout = 1.0
+        self.pni = None  # forget the packet number of a previous session
         gbt = options.get('gbt', b'')[0:47]
         lrt = min(max(0, options.get('lrt', 3)), 3)
         rwt = min(max(0, options.get('rwt', 8)), 14)
